@@ -28,7 +28,7 @@ func sizeMessageSet(mi *MessageInfo, p pointer, opts marshalOptions) (size int) 
 		size += messageset.SizeField(num)
 		if fullyLazyExtensions(opts) {
 			// Don't expand the extension, instead use the buffer to calculate size
-			if lb := x.lazyBuffer(); lb != nil {
+			if lb := x.lazyBuffer(); lb != nil && isSingleRecord(lb, xi.tagsize) {
 				// We got hold of the buffer, so it's still lazy.
 				// Don't count the tag size in the extension buffer, it's already added.
 				size += protowire.SizeTag(messageset.FieldMessage) + len(lb) - xi.tagsize
@@ -97,7 +97,7 @@ func marshalMessageSetField(mi *MessageInfo, b []byte, x ExtensionField, opts ma
 
 	if fullyLazyExtensions(opts) {
 		// Don't expand the extension if it's still in wire format, instead use the buffer content.
-		if lb := x.lazyBuffer(); lb != nil {
+		if lb := x.lazyBuffer(); lb != nil && isSingleRecord(lb, xi.tagsize) {
 			// The tag inside the lazy buffer is a different tag (the extension
 			// number), but what we need here is the tag for FieldMessage:
 			b = protowire.AppendVarint(b, protowire.EncodeTag(messageset.FieldMessage, protowire.BytesType))
@@ -113,6 +113,18 @@ func marshalMessageSetField(mi *MessageInfo, b []byte, x ExtensionField, opts ma
 	}
 	b = messageset.AppendFieldEnd(b)
 	return b, nil
+}
+
+// isSingleRecord reports whether the lazy extension buffer b, whose records
+// start with a tag of tagsize bytes, holds exactly one length-delimited record.
+// Several items with the same type ID are accumulated as several records,
+// which cannot be passed through as the body of a single item.
+func isSingleRecord(b []byte, tagsize int) bool {
+	if len(b) < tagsize {
+		return false
+	}
+	_, n := protowire.ConsumeBytes(b[tagsize:])
+	return n >= 0 && tagsize+n == len(b)
 }
 
 func unmarshalMessageSet(mi *MessageInfo, b []byte, p pointer, opts unmarshalOptions) (out unmarshalOutput, err error) {
